@@ -8,6 +8,8 @@ its per-site necessary condition."""
 from ..facts import AnalysisBroken
 from ..model import sx, walk, is_var, is_field, const_of, vars_in
 from .. import rules, core, holds
+from ..report import Remap
+from . import c04
 
 EXPLANATION = (
     'Rules: (DIRTY.1) interprocedural typestate over {clean, dirty}: setting a data flag of a request, '
@@ -19,8 +21,11 @@ EXPLANATION = (
     'empty<->non-empty transitions of the awaiting mask, tested on the mask itself) and the hard-hold '
     'transition signatures with mirrored guards; (MPT.1) the timer callback records the expiry and reaches '
     'the gate on all paths, and the timer is created with that callback and the request as datum and '
-    'armed; (GRD.2) the gate tests the counters with a relation that zero satisfies.  The numeric '
-    'invariant over histories is not decided.')
+    'armed; (GRD.2) the gate tests the counters with a relation that zero satisfies; (TAB.1) the routing tag '
+    'is written and read back in the same base around the same separator, so a reply can find its client; '
+    '(GRD.3) a blank ident and the user info complete each other in either order; (GRD.4) the reply lookup '
+    'passes over a slot only because it is not awaited, empty or named differently.  The numeric invariant '
+    'over histories is not decided.')
 ASSUMPTIONS = ['event entries are discovered from the dispatch switch, extern-callback registrations and the reply slots',
                'a call of the gate re-evaluates the request it is given; requests are not aliased across clients']
 
@@ -134,7 +139,57 @@ def gate_relations(P, R):
         R.floor('C03.GRD.2', 2, 'counter tests in the gate')
 
 
+def blank_ident(P, R):
+    """GRD.3: a blank ident and the user info complete each other in either order.  In the ident handler the
+    branch without an ident decides between 'ident known' and 'wait for the user info' on something the
+    user-info handler establishes (a field it stores, or its flag); the user-info handler in turn
+    completes a recorded blank ident."""
+    rd, disp = core.reader_dispatch(P)
+    uh = [h for (s, h, vs) in disp if vs and ord('u') in vs]
+    Uh = [h for (s, h, vs) in disp if vs and ord('U') in vs]
+    if not uh or not Uh:
+        raise AnalysisBroken('ident / user-info handlers not found in the dispatch')
+    u, U = uh[0], Uh[0]
+    ufields = set()
+    for s in U.sites():
+        for lv in P.written_lvalues(s):
+            from ..model import path_fields
+            for rec, fld in path_fields(lv):
+                if rec == core.REQ_REC and fld != 'flags':
+                    ufields.add(fld)
+    ident_p = u.params[1] if len(u.params) > 1 else None
+    n = 0
+    for s in u.sites():
+        if s.ev['k'] == 'bitset' and s.ev.get('bit') == 'IAUTH_GOT_IDENT' and core.is_req_flags(s.ev.get('set')):
+            gs = u.guards(s.bid)
+            if any(is_var(g[0], ident_p) and g[1] == '!=' for g in gs):
+                continue      # an ident was delivered
+            n += 1
+            ok = False
+            seen = []
+            for g in gs:
+                l = g[0]
+                for x in walk(l):
+                    if x.get('k') == 'mem' and x.get('rec') == core.REQ_REC:
+                        seen.append(x['field'])
+                        if x['field'] in ufields and g[1] == '!=':
+                            ok = True
+                if isinstance(l, dict) and l.get('k') == 'bittest' and l.get('bit') == 'IAUTH_GOT_USER_INFO' and g[1] == '!=':
+                    ok = True
+            R.ob('C03.GRD.3', ok, s, 'without an ident, GOT_IDENT is set exactly when the user info has already arrived (test on a field the user-info handler stores: %s; tested: %s)'
+                 % (sorted(ufields), seen), key='blank-ident:known')
+        if s.ev['k'] == 'bitset' and s.ev.get('bit') == 'IAUTH_EMPTY_IDENT':
+            n += 1
+            R.ob('C03.GRD.3', True, s, 'otherwise the blank ident is recorded for the user-info handler to complete', key='blank-ident:recorded', nontrivial=False)
+    R.floor('C03.GRD.3', 2)
+
+
 def run(P, R, tier):
+    # a reply can only end the wait if its routing tag is read back the way it was written
+    r, sepch, idv, serv = c04.tag_tables(P, Remap(R, {'C04.TAB.1': 'C03.TAB.1'}))
+    cl = c04.lookup_discipline(P, Remap(R, {}))
+    c04.lookup_skips(P, Remap(R, {'C04.GRD.3': 'C03.GRD.4'}), cl)
+    blank_ident(P, R)
     dirty_entries(P, R)
     counter_discipline(P, R)
     holds.soft_hold_typestate(P, R, 'C03.GRD.1')
